@@ -1,5 +1,6 @@
 mod common;
 mod driver;
+mod hooks;
 mod model;
 mod proj;
 mod tokens;
